@@ -34,7 +34,7 @@ func DefaultOpts() GenOpts {
 		WrapPct:    40,
 		BarePct:    12,
 		ImportPct:  20,
-		LineDirPct: 10,
+		LineDirPct: 15,
 		PairPct:    15,
 		TwinPct:    25,
 		GenericPct: 15,
@@ -418,6 +418,9 @@ func (g *flowGen) finish() {
 	}
 	if p.hasKind(KTwinA) && p.hasKind(KTwinB) {
 		feat["twin-packages"] = true
+	}
+	if p.LineDirs && (p.nameOffset()/23)%3 == 0 {
+		feat["line-directives-all-announcing-one-position"] = true
 	}
 	if p.PadLines && !p.LineDirs {
 		feat["directive-straddles-line-98-100-or-998-1000"] = true
